@@ -1404,6 +1404,9 @@ def simp(v):
             n = hi[3] if hi[2] == lo else hi[2] if hi[3] == lo else None
             if n is not None:
                 return ("binop", "Add", lo, ("elem", ("call", ("global", "range"), (n,), ()), v[2]))
+    # every element of itertools.repeat(c) is c  (`zip(repeat(sign), rows)`: a constant column of a table)
+    if k == "elem" and v[1][0] == "call" and v[1][1] in (("global", "repeat"), ("attr", ("global", "itertools"), "repeat")) and len(v[1][2]) == 1 and not v[1][3]:
+        return v[1][2][0]
     if k == "elem" and v[1][0] in ("phi", "ifexp"):
         return ("phi", v[1][1], simp(("elem", v[1][2], v[2])), simp(("elem", v[1][3], v[2])))
     if k == "elem":
@@ -1451,6 +1454,59 @@ def summarise_appends(flow) -> dict:
             continue
         out[("acc", name)] = ("comp", "list", val, ((bv, base, ()),))
     return out
+
+
+def summarise_memos(flow) -> list:
+    """Memo tables: a local dict filled by ONE store `D[K(x)] = G(x)` inside one loop `for x in S` (one loop more than the
+    initialisation `D = {}`; unguarded or guarded by `K(x) not in D` only; no other write to D), where key and value depend on the
+    iteration only through the loop's element x.  A later read `D[K(x')]` is then `G(x')` -- the entry stored for the first x with
+    the same key, which has the same value because G depends on x through what the key determines (the same standing assumption
+    as `Index(ListComp(f), S.index(r)) => f(r)`).  -> [(name, key pattern, value template, pattern variable)] for
+    expand_memos; nothing is substituted by the engine itself."""
+    out = []
+    by = {}
+    for f in flow.facts:
+        if isinstance(f.target, str) and f.kind in ("init", "append", "store", "augstore", "remove", "mutate"):
+            by.setdefault(f.target, []).append(f)
+    for name, fs in by.items():
+        inits = [f for f in fs if f.kind == "init"]
+        stores = [f for f in fs if f.kind == "store"]
+        if len(inits) != 1 or len(stores) != 1 or len(fs) != 2:
+            continue
+        i0, s0 = inits[0], stores[0]
+        if simp(i0.value) not in (("dict", ()), ("call", ("global", "dict"), (), ())) or s0.index is None or s0.value is None:
+            continue
+        if len(s0.loops) != len(i0.loops) + 1 or s0.loops[:len(i0.loops)] != i0.loops or s0.seq < i0.seq or s0.loops[-1].kind != "for":
+            continue
+        lp = s0.loops[-1]
+        key, val = simp(s0.index), simp(s0.value)
+        extra = [(simp(c), pol) for c, pol in s0.guards[len(i0.guards):]]
+        if list(s0.guards[:len(i0.guards)]) != list(i0.guards) or extra not in ([], [(("cmp", ("In",), (key, ("acc", name))), False)]):
+            continue
+        dep = lambda t: isinstance(t, tuple) and len(t) == 3 and t[0] in ("elem", "idx", "key", "val", "carried", "after") and t[2] == lp.id
+        atoms = {t for t in walk(key) if dep(t)}
+        if len(atoms) != 1 or next(iter(atoms))[0] != "elem":
+            continue
+        atom = next(iter(atoms))
+        if {t for t in walk(val) if dep(t)} - atoms or contains(val, lambda t: t == ("acc", name) or (isinstance(t, tuple) and t and t[0] in ("unknown", "mutated"))):
+            continue
+        var = V("memo-element")
+        out.append((name, subst(key, {atom: var}), val, atom))
+    return out
+
+
+def expand_memos(v, memos):
+    """`v` with every read `D[k]` of a memo table (summarise_memos) replaced by the value stored under that key"""
+    if not isinstance(v, tuple) or not memos:
+        return v
+    v = tuple(expand_memos(x, memos) if isinstance(x, tuple) else x for x in v)
+    if len(v) == 3 and v[0] == "sub" and v[1][0] == "acc":
+        for name, kpat, val, atom in memos:
+            if v[1][1] == name:
+                b = match(kpat, simp(v[2]))
+                if b is not None and "memo-element" in b:
+                    return simp(subst(val, {atom: b["memo-element"]}))
+    return v
 
 
 # ------------------------------------------------------------------ accumulators and literal-dict loops, read back as values
